@@ -129,8 +129,8 @@ def _tlc(spec, fault, budget, dump=None, invariants=True, workers=4):
         rf, rd, extra, constraint, ("INVARIANTS %s\n" % invs) if invariants else "")
     with open(os.path.join(wd, "MC.cfg"), "w") as fh:
         fh.write(cfg)
-    cmd = "timeout %d java -XX:+UseParallelGC -Xmx5g -cp %s tlc2.TLC -workers %d -metadir %s/meta -config MC.cfg %s %s.tla" % (
-        budget, JAR, workers, wd, ("-dump dot,actionlabels %s/graph" % wd) if dump else "", f)
+    cmd = "timeout %d java -Djava.io.tmpdir=%s -XX:+UseParallelGC -Xmx5g -cp %s tlc2.TLC -workers %d -metadir %s/meta -config MC.cfg %s %s.tla" % (
+        budget, wd, JAR, workers, wd, ("-dump dot,actionlabels %s/graph" % wd) if dump else "", f)
     t0 = time.time()
     p = sh(cmd, cwd=wd, check=False, timeout=budget + 60)
     out = p.stdout
